@@ -44,6 +44,12 @@ func propC14(c *Ctx) string {
 	c13TermGuard(c, v)
 	c04CollectGuard(c)
 	c16DeqLock(c, v)
+	if ra := c.Rule("C14/ACKRETURN", "TRACE", "the PUBACK/PUBCOMP handler returns its window slot without blocking (a stray acknowledgement must not park the processor)", 2); true {
+		ackH, compH := c.handlerOf(ra, "broker", "Puback"), c.handlerOf(ra, "broker", "Pubcomp")
+		if ackH != nil && compH != nil {
+			c16AckReturn(c, v, ra, ackH, compH)
+		}
+	}
 	c12SetupState(c, v, "C14")
 	c12Once(c, v, "C14")
 	c20Switch(c, v, "C14")
@@ -694,6 +700,9 @@ func propC15(c *Ctx) string {
 	c15Fifo(c, v)
 	// queued service commands are executed first-in first-out: nothing inside the service re-queues a command
 	c17Queue(c, v)
+	// retransmissions keep the original order only if the resend loops walk the whole stored listing as it is
+	c08Resend(c, v, "C15")
+	c09Resend(c, v)
 	c.NotDecide("end-to-end order under all schedules", "order inside mercury.Writer / bufio (trusted FIFO byte streams)", "order between different QoS levels (not promised)",
 		"Dequeue's random choice between temporary and stored queue (different published-QoS classes)")
 	c.Assume("Go channels are FIFO", "one MemoryBackend per broker")
